@@ -571,3 +571,109 @@ func c14leaks(rc *RunCtx, base map[int]bool, nAssoc int) {
 		rc.Failf("association-task-leak", "%d associations have come and gone, the system is idle, and %d goroutines that were not there before the first datagram, started at %d different instants, are still alive:%s", nAssoc, len(extra), len(instants), describeTasks(extra))
 	}
 }
+
+// c14m: one packet handler serving two listeners, as a service with two UDP
+// listeners does. A client of listener B has an association; listener A is shut
+// down ("shutting the packet listener down expires all associations" - its own).
+// B's association "stays usable for at least the configured timeout after the
+// client's most recent datagram": the client's next datagram, sent well inside
+// the timeout, leaves from the same source address, and the association's
+// removal is not reported before its deadline.
+func init() {
+	Register(&Scenario{Name: "c14m", Prop: "C14", MaxSteps: 100000, Run: runC14m})
+}
+
+func runC14m(rc *RunCtx) {
+	G := rc.G
+	w := simnet.NewWorld()
+	T := []time.Duration{time.Second, 30 * time.Second, 5 * time.Minute}[G.Draw(3)]
+	keys := genKeys(G, 1+G.Draw(2), "")
+	m := &RecMetrics{}
+	srv := startUDPServer(rc, w, udpServerOpts{Keys: keys, Timeout: T, Metrics: m, Listeners: 2})
+	tgtIP := net.IPv4(93, 184, 216, 60).To4()
+	tgt, err := w.BindUDP(&net.UDPAddr{IP: tgtIP, Port: 7300})
+	if err != nil {
+		panic(err)
+	}
+	tgt.Foreign = true
+	var seen []*net.UDPAddr // source addresses of the datagrams the target got, in order
+	simrt.GoDaemon("c14m-target", func() {
+		buf := make([]byte, 2048)
+		for {
+			_, from, err := tgt.ReadFromUDP(buf)
+			if err != nil {
+				return
+			}
+			seen = append(seen, from)
+		}
+	})
+	defer tgt.Close()
+	key := keys[G.Draw(len(keys))]
+	cl, err := w.BindUDP(&net.UDPAddr{IP: net.IPv4(198, 18, 14, 1).To4(), Port: 6140})
+	if err != nil {
+		panic(err)
+	}
+	defer cl.Close()
+	bPort := 9001 // the second listener
+	send := func(tag string) {
+		plain := append(socksAddr(fmt.Sprintf("%s:7300", tgtIP)), []byte(tag)...)
+		cl.WriteToUDP(packUDP(key, plain), &net.UDPAddr{IP: proxyIP, Port: bPort})
+	}
+	send("first")
+	simrt.Sleep(time.Duration(1+G.Draw(4)) * T / 20)
+	// the first listener goes away (a reload that drops one of the service's
+	// addresses); with its own traffic or without
+	if G.Draw(2) == 0 {
+		other, err := w.BindUDP(&net.UDPAddr{IP: net.IPv4(198, 18, 14, 2).To4(), Port: 6141})
+		if err == nil {
+			plain := append(socksAddr(fmt.Sprintf("%s:7300", tgtIP)), []byte("on-A")...)
+			other.WriteToUDP(packUDP(key, plain), &net.UDPAddr{IP: proxyIP, Port: 9000})
+			simrt.Sleep(time.Millisecond)
+			other.Close()
+		}
+	}
+	srv.PCs[0].Close()
+	closedAt := simrt.Elapsed()
+	simrt.Sleep(time.Duration(1+G.Draw(4)) * T / 20)
+	secondAt := simrt.Elapsed()
+	send("second")
+	simrt.Sleep(T / 20)
+	rc.Nontrivial = true
+	var mine []*net.UDPAddr
+	for _, a := range seen {
+		mine = append(mine, a)
+	}
+	// the association of the B client
+	var rec *UDPRec
+	for _, r := range m.UDP {
+		if r.Client == cl.LocalAddr().String() && rec == nil {
+			rec = r
+		}
+	}
+	if rec == nil {
+		rc.Inconclusive = append(rc.Inconclusive, "no-association")
+	} else {
+		if rec.RemAt >= 0 && rec.RemAt < secondAt {
+			rc.Failf("teardown-early:other-listener-shutdown", "one handler, two listeners: the association of a client of the second listener was reported removed at %v, right after the FIRST listener was closed at %v, although its client's last datagram was less than the timeout %v old", rec.RemAt, closedAt, T)
+		}
+		n := 0
+		for _, r := range m.UDP {
+			if r.Client == cl.LocalAddr().String() {
+				n++
+			}
+		}
+		if n > 1 {
+			rc.Failf("teardown-early:other-listener-shutdown", "one handler, two listeners: the client of the second listener got %d associations for two datagrams %v apart (timeout %v); the first listener had been closed in between", n, secondAt-closedAt, T)
+		}
+	}
+	// everything expires in the end
+	srv.PCs[1].Close()
+	simrt.Sleep(T + time.Second + T/10)
+	simrt.Quiesce()
+	for _, sk := range w.OpenUDP(true) {
+		if sk != srv.Socks[0] && sk != srv.Socks[1] {
+			rc.Failf("socket-never-closed", "outbound socket %v is still open after both listeners were closed and the timeout passed", sk.LocalAddr())
+		}
+	}
+	rc.Phase = "done"
+}
